@@ -89,6 +89,8 @@ def solve_and_judge(case, which, in_situ=True):
         rec.count('models.judged.with_country_currency_member_overwritten_after_construction')
     if case.get('build_opts', {}).get('declare_first') and any(c.get('cap') for z in spec['zones'] for c in z['countries'] if c['role'] != 'central'):
         rec.count('models.judged.with_the_firm_declared_before_its_owners')
+    if getattr(b, 'weights_shifted', 0):
+        rec.count('models.judged.with_numeric_portfolio_weights_overridden_by_a_path')
     if getattr(b, 'lists_mutated', False):
         rec.count('models.judged.with_getter_results_emptied_by_the_caller')
     if getattr(b, 'predeclared_lag', 0):
@@ -121,6 +123,12 @@ def gen_case(rng, idx, tier, emphasis=None):
         # portfolios over three assets (deposits, bonds, money as the residual) through the weighting helper
         spec = M.gen_spec(rng, n_zones=rng.choice([1, 1, 2]))
         M.force_three_asset_portfolio(rng, spec)
+        if idx % 16 == 9:
+            for c_ in spec['zones'][0]['countries']:
+                if c_['role'] != 'central' and c_['hh'].get('bond_share'):
+                    c_['hh']['portfolio'] = 'share'
+                    c_['hh']['share'] = c_['hh'].get('share') or 0.5
+                    c_['hh']['weights_as_numbers_then_shifted'] = True
     elif r == 0:
         spec = M.gen_spec(rng, n_zones=1)
         if idx % 16 == 8:
